@@ -10,7 +10,7 @@ anchored in; for each mutant, in a scratch worktree:
      (a blind spot or an equivalent mutant - to be looked at by hand), exit 2 => "inconclusive".
 Appends to /verif/selftest/mutscore-<lane>.tsv . Lanes split the property list so several can run side by side.
 """
-import json, os, random, re, subprocess, sys, time
+import json, os, random, re, signal, subprocess, sys, time
 
 lane, nlanes, per = int(sys.argv[1]), int(sys.argv[2]), int(sys.argv[3])
 seed = int(sys.argv[4]) if len(sys.argv) > 4 else 1
@@ -34,10 +34,17 @@ OPS = [
 
 def sh(cmd, cwd=None, timeout=1800, env=None):
     e = dict(os.environ); e.update(env or {})
+    # own process group, killed as a whole on timeout: a mutant that loops forever must not outlive the campaign
+    p = subprocess.Popen(cmd, shell=True, cwd=cwd, stdout=subprocess.PIPE, stderr=subprocess.STDOUT, text=True, env=e, start_new_session=True)
     try:
-        r = subprocess.run(cmd, shell=True, cwd=cwd, capture_output=True, text=True, timeout=timeout, env=e)
-        return r.returncode, r.stdout + r.stderr
+        out, _ = p.communicate(timeout=timeout)
+        return p.returncode, out
     except subprocess.TimeoutExpired:
+        try:
+            os.killpg(p.pid, signal.SIGKILL)
+        except ProcessLookupError:
+            pass
+        p.wait()
         return 124, "timeout"
 
 def candidate_lines(path):
